@@ -34,6 +34,12 @@ EVIDENCE   = os.path.join(ROOT, 'evidence')
 KNOWN_FILE = os.path.join(ROOT, 'known_findings.json')
 
 CHECKS = {
+    'C01': 'dst.checks.c01',
+    'C02': 'dst.checks.c02',
+    'C03': 'dst.checks.c03',
+    'C04': 'dst.checks.c04',
+    'C07': 'dst.checks.c07',
+    'C08': 'dst.checks.c08',
     'C06': 'dst.checks.c06',
     'C13': 'dst.checks.c13',
     'C14': 'dst.checks.c14',
